@@ -7,6 +7,9 @@ HOOK_COMMITS = ["afa3aa0"]
 THEOREMS = {
     "C01": ("TrVerif.Props.C01", ["Tr.C01", "Tr.C01_with", "Tr.C01_modulo_cleanup", "Tr.cleanupPreserves", "Tr.revScanList_inv", "Tr.reconLoop_valid", "Tr.emit_valid"]),
     "C02": ("TrVerif.Props.C02", ["Tr.C02_partial", "Tr.C02_times", "Tr.C02_arrival", "Tr.C02_first_wait", "Tr.stepsOfLegs_transfer", "Tr.bestEgress_spec"]),
+    "C03": ("TrVerif.Props.NonVacuity", ["Tr.C03_optimal", "Tr.forwardSingle_optimal", "Tr.FwdDomain_dataset", "Tr.fwdStep1_FCβ", "Tr.fwdScanList1_FCβ", "Tr.bestEgress_le", "Tr.bestEgress_sound",
+                                         "Tr.reach_reverse", "Tr.singleReverse_gen", "Tr.Reach.usable", "Tr.journeyOK_arrival", "Tr.fwdScanList_inv", "Tr.C01", "Tr.C02_times", "Tr.C02_arrival",
+                                         "Tr.nv_hypotheses", "Tr.nv_hypotheses_complete", "Tr.nv_admissible_forward"]),
     "C04": ("TrVerif.Props.NonVacuity", ["Tr.C04_optimal", "Tr.singleReverse_optimal", "Tr.revStep1_RCθ", "Tr.revScanList1_RCθ", "Tr.bestAccess_ge", "Tr.init_RCθ",
                                          "Tr.revIndex_spec", "Tr.C01", "Tr.C02_times", "Tr.C02_arrival", "Tr.nv_hypotheses", "Tr.nv_hypotheses_reverse", "Tr.nv_admissible", "Tr.nv_results"]),
     "C06": ("TrVerif.Props.C06", ["Tr.C06_totals", "Tr.C06_route"]),
@@ -64,8 +67,16 @@ _reg("C02", "PROOF (all clauses, over the model): Tr.C02_partial - every ridden 
      "departure + access walk, is within max_first_waiting_time unless the cap is below the minimum waiting time in force (documented reading, DESIGN 0.5). Carried through the reverse-scan "
      "invariant, the reconstruction, the four clean-up rewrites and the emission. " + _M + "; " + _O + " (check_limits).",
      "Lean 4 theorems (invariant + refinement chain) + differential correspondence + executable oracle")
-for _pid, _what in (("C03", "earliest arrival (reference forward solver over all admissible journeys)"),
-                    ("C05", "latest departure for the reported arrival (reference backward solver from the reported arrival)")):
+_reg("C03", "PROOF (over the model, on the property's own domain; one outcome left open): Tr.C03_optimal - for every well-formed dataset with positive hop times (lines of the `transferable` mode "
+     "allowed), scenario and departure-time query with the first-waiting cap disabled: (1) a returned route arrives no later than ANY admissible journey (AdmFwd: a permitted boarding of an "
+     "admitted trip that a traveller leaving the place at the requested time can reach - inductive Reach -, a permitted alighting of that trip at a stop the router offers, arrival = alighting + "
+     "egress walk within max_travel_time); that the route itself is such a journey is Tr.C01 / Tr.C02_*, so its arrival IS the minimum; (2) when an admissible journey exists the answer is never "
+     "no_routing_found. (2) was FALSE on the code as found - the second pass could stop before the only acceptable first boarding; the failing input came out of this proof (fix a7932ab, corpus/). "
+     "Proved by: completeness of the single forward scan up to an upper cut line (Tr.fwdStep1_FCβ), best-egress selection, forward soundness (a journey J* realises the chosen time), the journey "
+     "reversal Tr.reach_reverse (J* is an admissible journey of the second pass, all its trips flagged usable), and the general single reverse pass Tr.singleReverse_gen. NOT proved: that the "
+     "model's fuel-bounded reconstruction / clean-up never end in its `exception` outcome on well-formed data. " + _M + "; the brute-force reference solver is still run on every answer.",
+     "Lean 4 theorems (forward + reverse completeness invariants, journey reversal, selection lemmas; with C01/C02 for achievability) + differential correspondence + reference solver")
+for _pid, _what in (("C05", "latest departure for the reported arrival (reference backward solver from the reported arrival)"),):
     _reg(_pid, "NO THEOREM for the optimality this property is about (proofs not reached; DESIGN 0.1). That the returned route is an executable itinerary within the limits is C01 / C02 "
          "(proved). " + _M + " in full; " + _what + " is recomputed for every generated case by an independent brute-force reference and compared with the implementation's answer. "
          "This is testing of the property on generated inputs, not a proof.",
